@@ -1,3 +1,3 @@
 # -*- python -*-  properties not (yet) claimed, with the reason
-for pid in ["C17","C18","C19","C20"]:
+for pid in []:
     NOT_BUILT[pid] = "check under construction in this build session: the rules of DESIGN.md for this property are not wired into the checker yet, so nothing is claimed"
